@@ -94,4 +94,41 @@ theorem exV_wf : MeshWf exV := by
   rcases this with rfl | rfl | rfl <;> refine ⟨?_, by decide⟩ <;>
     simp [Region.lo, Region.hi, exV, exMesh]
 
+/-- `exS` on the same mesh made periodic along axis `a` only -/
+def exSP : Fld := { exS with mesh := { exMesh with bc := "a" } }
+
+theorem lower_b : ("b" : String).toLower = "b" := by
+  apply String.toList_inj.mp; simp [String.toLower]
+theorem lower_a : ("a" : String).toLower = "a" := by
+  apply String.toList_inj.mp; simp [String.toLower]
+theorem lower_c : ("c" : String).toLower = "c" := by
+  apply String.toList_inj.mp; simp [String.toLower]
+theorem lower_e : ("" : String).toLower = "" := by
+  apply String.toList_inj.mp; simp [String.toLower]
+
+theorem exSP_wf : MeshWf exSP := by
+  refine ⟨rfl, rfl, ⟨rfl, by decide⟩, rfl, ?_, lower_a, by decide, rfl⟩
+  intro x hx
+  have : x = 0 ∨ x = 1 ∨ x = 2 := by unfold Mesh.ndim Region.ndim exSP exS exMesh at hx; simp at hx; omega
+  rcases this with rfl | rfl | rfl <;> refine ⟨?_, by decide⟩ <;>
+    simp [Region.lo, Region.hi, exSP, exS, exMesh]
+
+/-- a MIXED plane: axis `a` periodic, axis `b` open; the turn moves the periodicity to `b` -/
+theorem exSP_tw01 : TurnWf exSP 0 1 := by
+  have h : rotBc1 exSP.mesh.bc (exSP.mesh.region.dims.getD 0 "") (exSP.mesh.region.dims.getD 1 "") = "b" := by decide
+  exact ⟨Or.inl ⟨by decide, by decide, by decide, by decide⟩, by rw [h]; exact lower_b, by rw [h]; decide⟩
+
+theorem exSP_tw02 : TurnWf exSP 0 2 := by
+  have h : rotBc1 exSP.mesh.bc (exSP.mesh.region.dims.getD 0 "") (exSP.mesh.region.dims.getD 2 "") = "c" := by decide
+  exact ⟨Or.inl ⟨by decide, by decide, by decide, by decide⟩, by rw [h]; exact lower_c, by rw [h]; decide⟩
+
+theorem exV_tw (a b : Nat) : TurnWf exV a b := by
+  have h : ∀ da db, rotBc1 exV.mesh.bc da db = "" := by
+    intro da db
+    unfold rotBc1
+    have : exV.mesh.bc = "" := rfl
+    rw [this]
+    simp
+  exact ⟨Or.inr (by unfold periodic; simp [exV, exMesh]), by rw [h]; exact lower_e, by rw [h]; decide⟩
+
 end DFV.C05
